@@ -159,9 +159,12 @@ one (int pi, int ci, int ni, int fill, int do_hash)
   char o192[CRYPT_GENSALT_OUTPUT_SIZE + 8], o256[256 + 8], again[CRYPT_GENSALT_OUTPUT_SIZE], o384[384], o1024[1024];
   char *r1 = 0, *r2 = 0, *r3 = 0, *r0 = 0, *r1b = 0, *r4 = 0, *r5 = 0;
   char s0[CRYPT_GENSALT_OUTPUT_SIZE] = "";
+  /* whatever errno an earlier call left behind must not matter (the calls below also leave ERANGE/EINVAL for one another) */
+  static const int entry_errno[4] = { 0, ERANGE, EINVAL, ENOMEM };
   int k = VH_TRY (0);
   if (k == 0)
     {
+      errno = entry_errno[(pi + ci + ni + fill) & 3];
       r1 = crypt_gensalt_rn (pref[pi], count, (const char *) rb, nrb, o192, CRYPT_GENSALT_OUTPUT_SIZE);
       r2 = crypt_gensalt_rn (pref[pi], count, (const char *) rb, nrb, o256, 256);
       r3 = crypt_gensalt_ra (pref[pi], count, (const char *) rb, nrb);
@@ -278,6 +281,7 @@ one (int pi, int ci, int ni, int fill, int do_hash)
       k = VH_TRY (0);
       if (k == 0)
         {
+          errno = entry_errno[(pi + ci + ni + fill + pj + 1) & 3];
           h = crypt_rn (phr[pj], S, cd, sizeof *cd);
           VH_END ();
         }
